@@ -308,6 +308,15 @@ func evaluate(srv *pvpeg.Server, pigeon, dir string, seed int64, i int, av pvpeg
 				names = append(names[:at:at], append([]string{""}, names[at:]...)...)
 			}
 		}
+		if allValid && r.Intn(4) == 0 {
+			// blanks around a name ("Mid, Alt"): a name is what stands between the commas. The tool either refuses the
+			// list (no rule is called " Alt") or, if it accepts it, has to honour the rule it took the name for
+			at := r.Intn(len(names))
+			names[at] = []string{" ", "  ", "\t"}[r.Intn(3)][:1+r.Intn(1)] + names[at]
+			if r.Intn(2) == 0 {
+				names[at] += " "
+			}
+		}
 		if len(names) > 1 && r.Intn(2) == 0 {
 			// the flag may be repeated: every occurrence counts
 			for _, nm := range names {
@@ -318,8 +327,8 @@ func evaluate(srv *pvpeg.Server, pigeon, dir string, seed int64, i int, av pvpeg
 		}
 		for _, nm := range names {
 			for _, rl := range f.rules {
-				if rl == nm {
-					entryNames = append(entryNames, nm)
+				if rl == strings.TrimSpace(nm) {
+					entryNames = append(entryNames, rl)
 				}
 			}
 		}
